@@ -3,7 +3,7 @@ import enc
 import fmtlib
 from fmtlib import layouts
 from purecheck import PureCheck
-from p_c10 import ALPHA, ALPHA_X, ATTS2, WID, cols
+from p_c10 import ALPHA, ALPHA_X, ALPHA_Y, ATTS2, WID, cols
 
 
 class C11(PureCheck):
@@ -30,6 +30,9 @@ class C11(PureCheck):
             for _ in range(1500):
                 pool.append([rng.choice(runs3) for _ in range(3)])
         runsx = [[list(t), list(a)] for t in fmtlib.texts_upto(ALPHA_X, 3, 1) for a in ATTS2]
+        runsy = [[list(t), list(a)] for t in fmtlib.texts_upto(ALPHA_Y, 3, 1) for a in ATTS2]
+        for _ in range(200 if tier == "quick" else 3000):
+            pool.append([rng.choice(runsy) for _ in range(rng.choice([1, 2, 2, 3]))])
         for _ in range(250 if tier == "quick" else 4000):
             pool.append([rng.choice(runsx) for _ in range(rng.choice([1, 2, 2, 3]))])
         # the same run several times in a row (what f * n and f + f build)
